@@ -20,7 +20,7 @@
 (* may report an error (ok = FALSE) provided what it handed out before is still     *)
 (* right; a success that hides a lost, duplicated, shifted or wrong item is never   *)
 (* accepted.                                                                        *)
-EXTENDS Integers, Sequences, FiniteSets
+EXTENDS Integers, Sequences, FiniteSets, TLC
 
 VARIABLES bc,    \* batch collector: [added, handed, max]
           fib,   \* fibers: id -> "spawned" | "done"
@@ -274,4 +274,33 @@ ParReadOk(src, reqs, got) ==
 (* FiberIoUtils::process_files_parallel(paths, ..): one result per path, in input order. *)
 (* The processor returns the length of the file; the harness wrote file i with in[i] bytes. *)
 InOrderOk(in, ok, out) == ok => out = in
+
+(* ======================================================================= 5 *)
+(* An async blob store shared by k tasks on a multi-thread runtime, judged at       *)
+(* QUIESCENCE (after all tasks have joined) - only what was observed:               *)
+(*   puts      every successful put / put_batch item of every task: [id, d]          *)
+(*             (d = digest of the bytes the task supplied; payloads are unique)       *)
+(*   removed   ids whose owner removed them successfully (only the owner of an id     *)
+(*             it never showed to anybody removes it)                                  *)
+(*   final     final[i] = answer [ok, d] of get(puts[i].id) at quiescence              *)
+(*   contains  contains[i] = contains(puts[i].id) at quiescence                        *)
+(*   reads     what the tasks read WHILE running: [ok, d, want] for get / get_batch    *)
+(*             of an id the reader itself had put and not removed (want = its bytes)   *)
+(*   gb        get_batch over the ids not removed, in the order of puts: [ok, items]   *)
+(*             with items[j] = [id, d]                                                *)
+(*   len       len() at quiescence                                                     *)
+(* One distinct id per accepted record (put and put_batch alike: one result per       *)
+(* input), every accepted record readable with its own bytes, nothing else counted.    *)
+AsQ(puts, ids, gone, final, contains, reads, gb, len) ==
+    /\ Cardinality(ids) = Len(puts)                           \* no id handed out twice
+    /\ gone \subseteq ids
+    /\ Len(final) = Len(puts) /\ Len(contains) = Len(puts)
+    /\ \A i \in 1..Len(puts) :
+          IF puts[i].id \in gone THEN ~final[i].ok /\ ~contains[i]
+          ELSE final[i].ok /\ final[i].d = puts[i].d /\ contains[i]
+    /\ \A j \in 1..Len(reads) : reads[j].ok /\ reads[j].d = reads[j].want
+    /\ gb.ok /\ gb.items = SelectSeq(puts, LAMBDA p : p.id \notin gone)      \* [id, d] in the order asked
+    /\ len = Len(puts) - Cardinality(gone)
+AsQuiesce(puts, removed, final, contains, reads, gb, len) ==
+    AsQ(puts, { puts[i].id : i \in 1..Len(puts) }, Rng(removed), final, contains, reads, gb, len)
 =============================================================================
